@@ -333,7 +333,10 @@ documented API (`Admissible` excludes them). -/
 def rebindOne (xs : List Val) (k : Int) (a : Arg) : Except Err (List Val) :=
   match a with
   | .ins v => if k < xs.length then .ok (pyInsert xs k v) else .ok (xs ++ [v])
-  | .plain v => if k < xs.length then setItem xs k v else .ok (xs ++ [v])
+  | .plain v =>
+    if k < xs.length then setItem xs k v
+    else if v.isMissing then .ok xs          -- appending the marker does nothing
+    else .ok (xs ++ [v])
 
 def rebindAll (xs : List Val) : List (Int × Arg) → List Val × Except Err Val
   | [] => (xs, .ok .none)
